@@ -398,6 +398,12 @@ def check(model, tier):
     from ..rules import bounds as _bounds
 
     _bounds.r06_7_bound_formulas(ctx, rule="R01.15")
+    # reordering between two iteration engines (preferred_engine) must not change rows: the C04 commutation rules
+    from ..rules import commute as _commute
+
+    _commute.r04_1_matrix(ctx)
+    _commute.r04_2_failure_hands_back(ctx)
+    _commute.r04_4_set_formulas(ctx)
     from ..rules.foundation import run_foundation
 
     run_foundation(ctx, "01")
